@@ -91,7 +91,12 @@ fn main() {
             for (i, v) in std::mem::take(&mut rep.violations).into_iter().enumerate() {
                 if i < 4 {
                     let f = scratch::write(&format!("replay_{i}.json"), serde_json::to_string(&serde_json::json!({"case": v.case})).unwrap().as_bytes());
-                    let st = std::process::Command::new(std::env::current_exe().unwrap()).args(["replay", &id, &f]).stdout(std::process::Stdio::null()).stderr(std::process::Stdio::null()).status();
+                    let mut rc = std::process::Command::new(std::env::current_exe().unwrap());
+                    rc.args(["replay", &id, &f]).stdout(std::process::Stdio::null()).stderr(std::process::Stdio::null());
+                    if let Some(sh) = cli::shim() {
+                        rc.env("LD_PRELOAD", sh).env("VERIF_HASH_SEED", seed.to_string());
+                    }
+                    let st = rc.status();
                     if let Ok(st) = st {
                         if st.code() == Some(0) {
                             rep.machinery(format!("violation did not reproduce when replayed in a fresh process: {}", v.what));
